@@ -113,7 +113,12 @@ func runCase(x *exec, f family, caseSeed uint64, idx int) {
 			}
 		}
 	}
-	defer func() { x.concPass(ents, concLines) }()
+	defer func() {
+		x.concPass(ents, concLines)
+		if st, ok := f.(stresser); ok {
+			st.stress(x, newRng(mix(caseSeed, 0x57E55)))
+		}
+	}()
 	if idx%8 == 0 {
 		for _, h := range commonHostile {
 			feed("hostile", h)
